@@ -41,6 +41,16 @@ impl Recog {
         self.st == St::Ground
     }
 
+    /// inside an OSC string
+    pub fn in_osc(&self) -> bool {
+        matches!(self.st, St::OscStart | St::Osc { .. } | St::OscEsc { .. })
+    }
+
+    /// just after an ESC
+    pub fn after_esc(&self) -> bool {
+        self.st == St::Esc
+    }
+
     pub fn feed_str(&mut self, s: &str, out: &mut Vec<Op>) {
         for c in s.chars() {
             self.feed(c, out);
